@@ -56,7 +56,11 @@ type plCase struct {
 	// Subset: indexes of phases with more than 1000 publishing datagrams, which overflow the message queue (by
 	// construction under a slow consumer, possibly otherwise): what is published there must be a sub-multiset of
 	// the expected payloads, nothing more
-	Subset    []int          `json:"subset,omitempty"`
+	Subset []int `json:"subset,omitempty"`
+	// Unjudged: indexes of phases in which a template is redefined while data of both definitions is in flight on
+	// several workers: which datagram meets which definition is the scheduler's choice, so what such a phase publishes
+	// is not compared (it must not crash); the phase after it, decoded once everything has settled, is
+	Unjudged  []int          `json:"unjudged,omitempty"`
 	Filter    []uint32       `json:"filter,omitempty"`
 	Exporters []wire.Hex     `json:"exporters"`
 	Phases    [][]plDatagram `json:"phases"`
@@ -64,7 +68,7 @@ type plCase struct {
 }
 
 const c12Rule = "case = protocol pipeline (ipfix | nf9 | nf5 | sflow), 1..16 real worker goroutines, UDP size (mostly 1500), 1..6 exporters, and phases: announce phases (each template key at most once) " +
-	"alternating with data phases of 20..800 datagrams (in a sixth of the IPFIX / NetFlow v9 cases an announcement storm: 200..800 keys announced back to back and decoded by all workers at once, then data for every key) with strongly mixed sizes (tens of octets next to ~1400) and unique (exporter, sequence number), incl. identical template refreshes, unknown-template, truncated, corrupted, reserved-id, garbage and oversize datagrams; " +
+	"alternating with data phases of 20..800 datagrams (in a sixth of the IPFIX / NetFlow v9 cases a template is redefined while data of both definitions is in flight on all workers — that phase is not compared, the data that follows once it has settled is; in another sixth an announcement storm: 200..800 keys announced back to back and decoded by all workers at once, then data for every key) with strongly mixed sizes (tens of octets next to ~1400) and unique (exporter, sequence number), incl. identical template refreshes, unknown-template, truncated, corrupted, reserved-id, garbage and oversize datagrams; " +
 	"in half of the cases one or two OTHER protocols' pipelines run at the same time on self-contained cross traffic (own workers, pools, queues; their receive buffer size drawn independently), in a third workers are told to quit and are replaced while traffic flows (every 1st..50th datagram); " +
 	"injected exactly as the receive loop does (pooled buffer, copy, send on the real UDP channel), real MQ channels drained concurrently or, in half of the cases, only after the workers are joined (slow consumer: a message that aliases a reused buffer is then overwritten for certain), workers joined per phase; half of the cases run on the -race build of the driver; " +
 	"oracle = per phase the multiset of published payloads equals, byte for byte, the payloads obtained by decoding each datagram on its own in the harness against a replica cache holding the templates of earlier phases " +
@@ -87,9 +91,10 @@ type plKey struct {
 
 func genPipeline(t *rapid.T, proto string, envs map[string]*wire.GenEnv, maxPhaseLen int, opts ...string) plCase {
 	c := plCase{Proto: proto}
-	forceOverflow := false
+	forceOverflow, e2e := false, false
 	for _, o := range opts {
 		forceOverflow = forceOverflow || o == "overflow"
+		e2e = e2e || o == "e2e" // the end-to-end rig compares everything that reaches the sink: no unjudged phases
 	}
 	c.Workers = rapid.OneOf(rapid.IntRange(1, 4), rapid.IntRange(1, 16)).Draw(t, "workers")
 	c.UDPSize = rapid.SampledFrom([]int{1500, 1500, 1500, 1500, 600, 2048, 9000, 9000, 65535}).Draw(t, "udpsize")
@@ -378,6 +383,50 @@ func genPipeline(t *rapid.T, proto string, envs map[string]*wire.GenEnv, maxPhas
 				data = append(data, plDatagram{Exp: key.exp, Data: b, Class: class})
 			}
 			c.Phases = append(c.Phases, withCross(data))
+		}
+		if !forceOverflow && !e2e && rapid.IntRange(0, 5).Draw(t, "redefinflight") == 0 {
+			// a template is redefined (another number of fields) while data of the old and of the new definition is in
+			// flight on all workers; once that has settled, data of the new definition must decode by it
+			exp := rapid.IntRange(0, ne-1).Draw(t, "rifexp")
+			id := uint16(27000)
+			for usedID[fmt.Sprint(exp, id)] {
+				id++
+			}
+			usedID[fmt.Sprint(exp, id)] = true
+			oldT := wire.Template{ID: id, Fields: []wire.Field{{ID: 8, Len: 4, Type: wire.TIPv4}, {ID: 12, Len: 4, Type: wire.TIPv4}}}
+			newT := wire.Template{ID: id, Fields: []wire.Field{{ID: 1, Len: 8, Type: wire.TUint64}, {ID: 2, Len: 8, Type: wire.TUint64}, {ID: 10, Len: 4, Type: wire.TUint32}}}
+			msgOf := func(tp *wire.Template, announce bool, k int) plDatagram {
+				m := wire.Msg{Proto: proto, Seq: nextSeq(), Time: 1700000002, Domain: uint32(exp), Count: 1}
+				if announce {
+					m.Sets = []wire.Set{{Kind: "tpl", Tpls: []wire.Template{*tp}}}
+					return plDatagram{Exp: exp, Data: m.Bytes(), Class: "announce"}
+				}
+				rec := wire.Record{}
+				for _, f := range tp.Fields {
+					v := make([]byte, f.Len)
+					v[len(v)-1], v[0] = byte(k), byte(k>>8)
+					rec.Vals = append(rec.Vals, v)
+				}
+				m.Sets = []wire.Set{{Kind: "data", Tpl: tp, Recs: []wire.Record{rec}}}
+				return plDatagram{Exp: exp, Data: m.Bytes(), Class: "valid"}
+			}
+			c.Phases = append(c.Phases, []plDatagram{msgOf(&oldT, true, 0)})
+			var mid []plDatagram
+			n := rapid.IntRange(10, 60).Draw(t, "rifn")
+			for k := 0; k < n; k++ {
+				mid = append(mid, msgOf(&oldT, false, k))
+			}
+			mid = append(mid, msgOf(&newT, true, 0))
+			for k := 0; k < n; k++ {
+				mid = append(mid, msgOf(&newT, false, k))
+			}
+			c.Unjudged = append(c.Unjudged, len(c.Phases))
+			c.Phases = append(c.Phases, mid)
+			var after []plDatagram
+			for k := 0; k < 8; k++ {
+				after = append(after, msgOf(&newT, false, 100+k))
+			}
+			c.Phases = append(c.Phases, after)
 		}
 		if !forceOverflow && rapid.IntRange(0, 5).Draw(t, "storm") == 0 {
 			// an announcement storm: several hundred (exporter, id) keys announced back to back (exporters coming up after
@@ -734,6 +783,13 @@ func runPipeline(prop string, c *plCase) (v verdict, sig string, err error) {
 		subset[pi] = true
 		v.label(true, "message-queue-overflow-phase")
 	}
+	unjudged := map[int]bool{}
+	for _, pi := range c.Unjudged {
+		if pi < 0 || pi >= len(c.Phases) {
+			return v, "", fmt.Errorf("bad case: unjudged phase")
+		}
+		unjudged[pi] = true
+	}
 	// compare the multiset a pipeline published with what its datagrams decode to on their own
 	compare := func(pi int, pname string, nsent int, published []string, want map[string]int) (string, error) {
 		got := map[string]int{}
@@ -841,6 +897,10 @@ func runPipeline(prop string, c *plCase) (v verdict, sig string, err error) {
 		}
 		if len(classes) >= 3 && c.Workers >= 2 {
 			classMix = true
+		}
+		if unjudged[pi] {
+			v.label(true, "redefinition-while-data-is-in-flight")
+			continue
 		}
 		if sig, err := compare(pi, c.Proto, sent[c.Proto], resp.Phases[pi].Published, want[c.Proto]); err != nil {
 			return v, sig, err
